@@ -30,6 +30,7 @@ MIN_REACH = {
     "calls_logged": {"quick": 2000, "thorough": 60000},
     "missing_slots_checked": {"quick": 1200, "thorough": 40000},
     "unsortable_axes_judged": {"quick": 5, "thorough": 300},
+    "long_case_sets_crossed_with_a_sub_grid": {"quick": 4, "thorough": 16},
     "rejections_checked": {"quick": 20, "thorough": 150},
     "case_sets_given_as_one_shot_iterators": {"quick": 100, "thorough": 2000},
     "rejections_checked_with_positional_cases": {"quick": 5, "thorough": 40},
@@ -39,7 +40,7 @@ MIN_REACH = {
 TIME_BUDGET = {"quick": 300, "thorough": 3000}
 
 KINDS = ["int", "float", "bool", "npbool", "npbool", "str", "complex", "tuple:2", "tuple:3", "list:2", "list:2x3", "array:3",
-         "array:2x2", "mixed", "dict:2", "dataset:3", "dataarray:2", "multi:s,b,t", "iarray:3", "barray:2", "iarray:2x2"]
+         "array:2x2", "mixed", "dict:2", "dataset:3", "dataarray:2", "multi:s,b,t", "iarray:3", "barray:2", "iarray:2x2", "emptyseq"]
 SPLIT_KINDS = ["tuple:2", "tuple:3", "multi:s,b,t", "multi:s,a2,l2x2", "mixed"]
 
 
@@ -76,6 +77,16 @@ def cases(ctx):
             "cases_as": rng.choice(["list", "list", "tuple", "iter", "generator", "zip"]),
         }
         yield c
+    # LONG case lists crossed with a sub-grid (600-1300 settings), sequentially and through a pool of threads: whatever
+    # windowing a run strategy applies to long task lists, every requested slot gets its own result
+    for i in range(ctx.pick(6, 24)):
+        ncase = [40, 75, 33, 81][i % 4]
+        cs = [{"p": j, "q": (j * 7) % 11} for j in range(ncase)]
+        sub = [["a", [0, 1, 2, 3]], ["b", [5, 6, 7, 8][:2 + i % 3]]]
+        entry = ["combo_runner", "case_runner"][i % 2]
+        yield {"entry": entry, "names": ["p", "q"], "cases": cs, "sub": sub, "kind": "int", "split": False, "flat": entry == "case_runner",
+               "spelling": "dict", "shuffle": [False, True, 7][i % 3], "constants": {}, "keyorder_seed": i, "single_dict": False,
+               "cases_as": "list", "pool": i % 3 != 2, "long": True}
     # overlap between case arguments and sub-grid arguments must be refused before any call
     for i in range(ctx.pick(40, 300)):
         names, cs = gens.gen_cases(rng, nargs=(1, 3))
@@ -138,6 +149,13 @@ def run_case(ctx, case):
     combos_arg = gens.spell_combos(sub, "dict") if sub else None
 
     result, err = None, None
+    pool_ = None
+    if case.get("long"):
+        ctx.count("long_case_sets_crossed_with_a_sub_grid")
+    if case.get("pool"):
+        from concurrent.futures import ThreadPoolExecutor
+        pool_ = ThreadPoolExecutor(3)
+        opts["executor"] = pool_
     try:
         with quiet():
             if case["entry"] in ("runner_cases", "harvester_cases"):
@@ -160,6 +178,9 @@ def run_case(ctx, case):
                 result = xyzpy.case_runner(fn, fn_args, spelled_cases, combos=combos_arg, **opts)
     except Exception as e:
         err = e
+    finally:
+        if pool_ is not None:
+            pool_.shutdown(wait=True)
     logged = [r["k"] for r in loglist]
     ctx.count("calls_logged", len(logged))
     sig0 = {"api": case["entry"], "kind": kind.split(":")[0], "split": case["split"], "flat": case["flat"],
